@@ -28,6 +28,7 @@ impl CharacterCategory {
 }
 pub struct Grammar<'a> { pub character_category: CharacterCategory, _p: core::marker::PhantomData<&'a ()> }
 //@include specs/cont_specs.rs.inc
+//@include specs/m2o_ok.rs.inc
 //@include specs/bufro_specs.rs.inc
 
 impl InputBuffer {
@@ -98,11 +99,11 @@ impl InputBuffer {
 //@  ret r
 //@  spec
         requires
-            old(self).state == BufferState::RW,
+            old(self).state == BufferState::RW, m2o_ok(*old(self)),
             old(self).mod_c2b@.len() == 0, old(self).mod_b2c@.len() == 0, old(self).mod_cat@.len() == 0,
             old(self).mod_bow@.len() == 0, old(self).mod_cat_continuity@.len() == 0,
         ensures
-            r is Ok, ro_wf(*final(self)),
+            r is Ok, ro_wf(*final(self)), buf_ro(*final(self)),
             final(self).original@ == old(self).original@, final(self).modified@ == old(self).modified@, final(self).m2o@ == old(self).m2o@,
             // character classes come from the grammar's table, one per character
             forall|k: int| 0 <= k < final(self).mod_chars@.len() ==> (#[trigger] final(self).mod_cat@[k]) == grammar.character_category.sp_cat(final(self).mod_chars@[k]),
